@@ -415,3 +415,24 @@ func (c *Ctx) tryField(pkgRel, typ, field string) *types.Var {
 	}
 	return nil
 }
+
+// caseTags maps each case expression of a tagged switch in the flow's body to the switch tag.
+func (f *Flow) caseTags() map[ast.Expr]ast.Expr {
+	if f.tags != nil {
+		return f.tags
+	}
+	f.tags = map[ast.Expr]ast.Expr{}
+	ast.Inspect(f.Body, func(n ast.Node) bool {
+		sw, ok := n.(*ast.SwitchStmt)
+		if !ok || sw.Tag == nil {
+			return true
+		}
+		for _, st := range sw.Body.List {
+			for _, e := range st.(*ast.CaseClause).List {
+				f.tags[e] = sw.Tag
+			}
+		}
+		return true
+	})
+	return f.tags
+}
